@@ -36,7 +36,9 @@ func VerifRevolut2Row() {
 	}
 	row := "CARD_PAYMENT,Current,2020-07-01 16:35:02,2020-07-02 05:27:33,Café Zürich," + signed + "," + fee + ",CHF,COMPLETED," + bal + "\n"
 	p, acc := zzParser(zzHeader + row)
-	err := p.parse()
+	var err error
+	stdout := v.CaptureStdout(func() { err = p.parse() })
+	v.Assert(stdout == "", "importer-writes-nothing-but-the-journal")
 	v.Assert(err == nil, "well-formed-row-is-imported")
 	if err != nil {
 		return
@@ -89,7 +91,9 @@ func VerifRevolut2Deterministic() {
 		v.MapOrderMax(3)
 		v.MapOrder(true)
 		p, _ := zzParser(text)
-		err := p.parse()
+		var err error
+	stdout := v.CaptureStdout(func() { err = p.parse() })
+	v.Assert(stdout == "", "importer-writes-nothing-but-the-journal")
 		v.MapOrder(false)
 		if err != nil {
 			return "error"
@@ -133,7 +137,9 @@ func VerifRevolut2Statement() {
 		text += "CARD_PAYMENT,Current,2020-07-01 16:35:02," + dates[k.d] + " 05:27:33,shop,-1" + string(rune('0'+i)) + ".00,0.00," + curs[k.c] + ",COMPLETED," + bal + "\n"
 	}
 	p, acc := zzParser(text)
-	err := p.parse()
+	var err error
+	stdout := v.CaptureStdout(func() { err = p.parse() })
+	v.Assert(stdout == "", "importer-writes-nothing-but-the-journal")
 	v.Assert(err == nil, "well-formed-statement-is-imported")
 	if err != nil {
 		return
